@@ -160,4 +160,102 @@ def runPre (st : St) : List Str → Except Err (St × List Rec)
 /-- `get_numbered_lines(content)` on `content.split("\n")` -/
 def numbered (lines : List Str) : Except Err (List Rec) := run St.init lines
 
+/-- an ordinary one-line statement (as `raw_line.strip()`): not empty, not a string opener, not a comment line, not a `"""` comment, no
+    continuation -/
+def plainStmt (s : Str) : Bool :=
+  !s.isEmpty && !isOpener s && !startsWith s ['#'] && !startsWith (firstPart s) q3 && !wantsMore (firstPart s)
+
+/-- the pending comment after a block of lines that are blank or `# …` comment lines: consecutive comment lines are gathered with `"\n"`,
+    blank lines in between change nothing -/
+def commentOf (cur : Option Str) : List Str → Option Str
+  | [] => cur
+  | l :: ls =>
+    match strip l with
+    | '#' :: c => commentOf (addComment cur (strip c)) ls
+    | _ => commentOf cur ls
+
+/-- a CRLF file: a `"\r"` at the end of every line that does not open a multi-line string -/
+def addCR (l : Str) : Str := if isOpener (strip l) then l else l ++ ['\r']
+
+/-- a one-line `"""…"""` comment (as `raw_line.strip()`): the text between the markers -/
+def oneLineBlock (s : Str) : Option Str :=
+  let p := firstPart s
+  if !s.isEmpty && !isOpener s && !startsWith s ['#'] && startsWith p q3 && !(p == q3 || !endsWith p q3)
+  then some ((p.drop 3).dropLast.dropLast.dropLast) else none
+
+/-- the pending comment after a block of blank lines, `# …` lines (gathered with `"\n"`) and one-line `\"\"\"…\"\"\"` comments (which REPLACE what
+    was gathered so far, as the code does) -/
+def commentOfB (cur : Option Str) : List Str → Option Str
+  | [] => cur
+  | l :: ls =>
+    match strip l with
+    | '#' :: c => commentOfB (addComment cur (strip c)) ls
+    | s =>
+      match oneLineBlock s with
+      | some body => commentOfB (some body) ls
+      | none => commentOfB cur ls
+
+/-- first line of a multi-line `"""` comment (as `raw_line.strip()`): the text after the marker -/
+def openLine (s : Str) : Option Str :=
+  let p := firstPart s
+  if !s.isEmpty && !isOpener s && !startsWith s ['#'] && startsWith p q3 && (p == q3 || !endsWith p q3) then some (p.drop 3) else none
+
+/-- a line inside a multi-line `"""` comment that does not close it -/
+def midLine (s : Str) : Option Str :=
+  let p := firstPart s
+  if !s.isEmpty && !isOpener s && !startsWith s ['#'] && !endsWith p q3 then some p else none
+
+/-- the closing line of a multi-line `"""` comment: the text before the marker -/
+def closeLine (s : Str) : Option Str :=
+  let p := firstPart s
+  if !s.isEmpty && !isOpener s && !startsWith s ['#'] && endsWith p q3 then some (p.dropLast.dropLast.dropLast) else none
+
+/-- the comment text gathered inside a multi-line block: every non-blank middle line on a line of its own; blank lines are dropped -/
+def blockBody (c : Str) : List Str → Str
+  | [] => c
+  | l :: ls =>
+    match midLine (strip l) with
+    | some p => blockBody (c ++ '\n' :: p) ls
+    | none => blockBody c ls
+
+/-! ### from the file content -/
+
+/-- `content.split("\n")` -/
+def splitNL : Str → List Str
+  | [] => [[]]
+  | c :: r =>
+    if c = '\n' then [] :: splitNL r
+    else match splitNL r with
+      | [] => [[c]]
+      | l :: ls => (c :: l) :: ls
+
+/-- `get_numbered_lines(content)` -/
+def numberedText (content : Str) : Except Err (List Rec) := numbered (splitNL content)
+
+/-! ### uniform scaling of the indentation (the layout edit "indentation × k") -/
+
+/-- repeat the leading run of `' '` of a line `k` times (what "scaling the indentation by k" does to one raw line) -/
+def scaleLine (k : Nat) (l : Str) : Str := List.replicate (k * lead l) ' ' ++ l.drop (lead l)
+
+def scaleRec (k : Nat) (r : Rec) : Rec := { r with indentation := k * r.indentation }
+
+/-- a line that could open a multi-line string is *tight*: nothing but `' '` in front of the text and nothing behind it, so that
+    `len(raw_lines[i]) - len(raw_line.lstrip())` (the `multiline_indentation`) is exactly the number of leading spaces -/
+def openerTight (l : Str) : Bool := !isOpener (strip l) || l.length == lead l + (strip l).length
+
+/-- forget the indentation numbers -/
+def eraseRec (r : Rec) : Rec := { r with indentation := 0 }
+
+/-- `numbered` up to the indentation numbers -/
+def eraseOut (x : Except Err (List Rec)) : Except Err (List Rec) := x.map (List.map eraseRec)
+
+/-- `"\n".join(lines)` -/
+def joinNL : List Str → Str
+  | [] => []
+  | [l] => l
+  | l :: m :: ls => l ++ '\n' :: joinNL (m :: ls)
+
+/-- the content with every line's leading spaces repeated `k` times -/
+def scaleContent (k : Nat) (content : Str) : Str := joinNL ((splitNL content).map (scaleLine k))
+
 end NemoVerif.NumberedLines
